@@ -463,7 +463,8 @@ def dynamic_section(ctx, rng):
     cases = []
     for _ in range(ctx.n(40, 400)):
         D = int(rng.choice([1, 2, 2, 3, 3] if ctx.quick else [1, 2, 3, 3, 4]))
-        orb = gen_orbit(rng, D)
+        half = max(16, 2 ** (D + 1) + 2)
+        orb = gen_orbit(rng, D, lo=-half, L=2 * half + 1)
         kind = "multinomial" if rng.random() < 0.5 else "slice"
         extra = bool(rng.random() < 0.6)
         salt = int(rng.integers(0, 1 << 30))
